@@ -314,5 +314,50 @@ fn main() {
         }
     }
     keylock(&mut cx, thorough);
+    ecdh_key_parameters(&mut cx);
     cx.out.finish();
+}
+
+/// ECDH recipients whose key announces KDF hash / key-wrap cipher other than the library's generation defaults (GnuPG's
+/// nistp384 keys say SHA2-384 / AES-256): RFC 9580 11.5 takes both from the recipient's key, on the sending and on the
+/// receiving side. The key material of a generated key is kept, the announced parameters are replaced.
+fn ecdh_key_parameters(cx: &mut Ctx) {
+    use pgp::composed::{KeyType, PlainSessionKey};
+    use pgp::packet::{PubKeyInner, PublicKey, PublicKeyEncryptedSessionKey, SecretKey};
+    use pgp::types::{DecryptionKey, EcdhPublicParams as E, EskType, KeyDetails, KeyVersion, PlainSecretParams, PublicParams, SecretParams, Timestamp};
+    for (ci, curve) in [ECCCurve::P256, ECCCurve::P384, ECCCurve::P521, ECCCurve::Curve25519Legacy].into_iter().enumerate() {
+        let Ok(Some(k)) = guarded(|| -> Option<pgp::composed::SignedSecretKey> {
+            use pgp::composed::{EncryptionCaps, SecretKeyParamsBuilder, SubkeyParamsBuilder};
+            let mut sb = SubkeyParamsBuilder::default(); sb.version(KeyVersion::V4).key_type(KeyType::ECDH(curve.clone())).can_encrypt(EncryptionCaps::All);
+            let mut pb = SecretKeyParamsBuilder::default();
+            pb.version(KeyVersion::V4).key_type(KeyType::Ed25519Legacy).can_certify(true).can_sign(true).primary_user_id("c12 <c12@example.org>".into()).subkeys(vec![sb.build().ok()?]);
+            pb.build().ok()?.generate(Rng::new(1250 + ci as u64)).ok()
+        }) else { cx.out.case("", &[], &["ecdh-key-parameters".into(), format!("{curve:?}")], "key generation failed", Some(false), "ecdh-key-parameters-unavailable"); continue; };
+        let Some(sub) = k.secret_subkeys.first() else { continue; };
+        let sp = sub.key.secret_params().clone();
+        let SecretParams::Plain(PlainSecretParams::ECDH(ref secret)) = sp else { continue; };
+        let PublicParams::ECDH(pp) = sub.key.public_key().public_params().clone() else { continue; };
+        for hash in [HashAlgorithm::Sha256, HashAlgorithm::Sha384, HashAlgorithm::Sha512] {
+            for sym in [SymmetricKeyAlgorithm::AES128, SymmetricKeyAlgorithm::AES192, SymmetricKeyAlgorithm::AES256] {
+                let params = match &pp {
+                    E::P256 { p, .. } => E::P256 { p: p.clone(), hash, alg_sym: sym },
+                    E::P384 { p, .. } => E::P384 { p: p.clone(), hash, alg_sym: sym },
+                    E::P521 { p, .. } => E::P521 { p: p.clone(), hash, alg_sym: sym },
+                    E::Curve25519Legacy { p, ecdh_kdf_type, .. } => E::Curve25519Legacy { p: p.clone(), hash, alg_sym: sym, ecdh_kdf_type: ecdh_kdf_type.clone() },
+                    _ => continue,
+                };
+                let r = guarded(|| -> Option<bool> {
+                    let inner = PubKeyInner::new(KeyVersion::V4, pgp::crypto::public_key::PublicKeyAlgorithm::ECDH, Timestamp::from_secs(1_700_000_000), None, PublicParams::ECDH(params.clone())).ok()?;
+                    let key = SecretKey::new(PublicKey::from_inner(inner).ok()?, SecretParams::Plain(PlainSecretParams::ECDH(secret.clone()))).ok()?;
+                    let sk: Vec<u8> = (0..32u8).map(|i| i.wrapping_mul(7).wrapping_add(ci as u8)).collect();
+                    let raw: RawSessionKey = sk.clone().into();
+                    let pkesk = PublicKeyEncryptedSessionKey::from_session_key_v3(Rng::new(5), &raw, SymmetricKeyAlgorithm::AES256, key.public_key()).ok()?;
+                    let values = pkesk.values().ok()?;
+                    Some(matches!(key.decrypt(&Password::empty(), values, EskType::V3_4), Ok(Ok(PlainSessionKey::V3_4 { key: ref got, sym_alg })) if sym_alg == SymmetricKeyAlgorithm::AES256 && got.as_ref() == &sk[..]))
+                });
+                let (imp, pred) = match r { Ok(Some(ok)) => (if ok { "session key recovered" } else { "session key NOT recovered" }.to_string(), ok), Ok(None) => ("not constructible".to_string(), true), Err(p) => (p, false) };
+                cx.out.case("", &[], &["ecdh-key-parameters".into(), format!("{curve:?}"), format!("{hash:?}"), format!("{sym:?}")], &imp, Some(pred), &format!("ecdh-key-parameters-{}", if imp.starts_with("not") { "unavailable" } else { "announced" }));
+            }
+        }
+    }
 }
